@@ -303,7 +303,7 @@ def nontrivial(case, obs):
     o = obs.split(' ')
     if o[0] == 'ok':
         return o[2 if case.startswith('tab') else 1] != '-'
-    return o[0] == 'err' and (' 0 ' in case or case.startswith('tab')) and len(case) > 60
+    return o[0] == 'err' and len(case) > 60          # a rejection of something long enough to be a corrupted encoding
 
 
 def classify(case, obs):
@@ -366,7 +366,7 @@ def table_cases(tier, rng):
                 subs = [(0, [])]
             add(render_table(rng, subs, rng.choice(pres), rng.choice(xeols), rng.choice(tails)))
     # longer tables
-    reps = 400 if tier == 'thorough' else 60
+    reps = 2000 if tier == 'thorough' else 300
     for _ in range(reps):
         n = rng.randrange(0, 41)
         es = [rand_ent(rng) for _ in range(n)]
@@ -436,7 +436,7 @@ def table_cases(tier, rng):
             add(b'xref\n7 1\n' + e + b'trailer')
             add(b'xref\n0 1\n' + ent(*good) + b'7 1\n' + e + b'trailer')
     # random byte mutations / deletions / insertions of legal tables
-    n = 6000 if tier == 'thorough' else 700
+    n = 40000 if tier == 'thorough' else 4000
     for _ in range(n):
         ne = rng.randrange(1, 6)
         es = [rand_ent(rng) for _ in range(ne)]
@@ -515,7 +515,7 @@ def png_up(data, cols):
 def stream_cases(tier, rng):
     out = []
     triples = [(a, b, c) for a in range(5) for b in range(5) for c in range(5)]
-    reps = 6 if tier == 'thorough' else 2
+    reps = 24 if tier == 'thorough' else 4
     for w in triples:
         for r in range(reps):
             n = rng.choice([0, 1, 2, 3, 5, 9]) if r else 3
@@ -589,7 +589,7 @@ def stream_cases(tier, rng):
               dict(Filter='i3'), dict(Filter=arr([]), DecodeParms='D()')]:
         out.append(stm_case(dict(good, **f), data))
     # FlateDecode, with and without PNG-Up predictor
-    nf = 300 if tier == 'thorough' else 25
+    nf = 2000 if tier == 'thorough' else 80
     for i in range(nf):
         w = rng.choice([t for t in triples if t[1] > 0])
         n = rng.randrange(1, 30)
